@@ -1,19 +1,23 @@
 import Arimaa.Props.C14
 import Arimaa.Lemmas.RsAgreePrevBoards
 import Arimaa.Lemmas.RsAgreeStep
+import Arimaa.Gen.Bridge.GameState_piece_board_for_step
+import Arimaa.Gen.Bridge.GameState_take_action
 
 /-!
 # C14 — the property at the level of the REGENERATED code
 
 `Gen/Rs.lean` is written by `tools/rs2lean2.py` from the current text of engine.rs / zobrist.rs on every
-run; `Lemmas/RsAgree*.lean` prove that each regenerated function equals
-`Res.guard (hand panic guard) (hand total function)`.  This file puts the agreement theorems of the
-functions C14 rests on into the property's proof closure and restates them as one named obligation
-(`C14_code_agrees`), plus corollaries that speak about the regenerated functions directly.  A change of
-the Rust text of one of these functions breaks an obligation here without any test having to find the input.
+run.  `Gen/Bridge/<fn>.lean` (generated) proves `@Rs.fn = @RsBase.fn` — the current text against the
+baseline text — and `Lemmas/RsAgree*.lean` prove that each baseline function equals
+`Res.guard (hand panic guard) (hand total function)`.  This file puts both, for the functions C14 rests
+on, into the property's proof closure and restates them as one named obligation (`C14_code_agrees`) about
+the CURRENT functions, plus corollaries that speak about them directly.  A change of the Rust text of one
+of these functions that alters behaviour breaks an obligation here without any test having to find the input.
+(written by tools/mkrprops.py)
 -/
 namespace Arimaa
-open Gen GameState Arimaa.Gen.Rs Arimaa.Rt
+open Gen GameState Arimaa.Gen.Rs Arimaa.Rt Arimaa.Gen.Bridge
 
 theorem C14_value_of_ok {α : Type} {x : Res α} {p : Bool} {v w : α} (h : x = Res.guard p v) (hx : x = .ok w) :
     p = false ∧ w = v := by
@@ -21,14 +25,16 @@ theorem C14_value_of_ok {α : Type} {x : Res α} {p : Bool} {v w : α} (h : x = 
   obtain ⟨hp, hv⟩ := Res.guard_eq_ok.mp hx
   exact ⟨hp, hv.symm⟩
 
-/-- the agreement theorems C14 rests on, as one obligation -/
+/-- the agreement theorems C14 rests on, about the CURRENT functions, as one obligation -/
 theorem C14_code_agrees :
     (∀ (s : GameState) (i : Nat), GameState_piece_board_for_step s i = Res.guard (s.pieceBoardForStepPanics i) (s.pieceBoardForStep i)) ∧
     (∀ (s : GameState) (a : Action), GameState_take_action s a = Res.guard (s.takeActionPanics a) (s.takeAction a)) :=
-  ⟨RsAgree.piece_board_for_step_eq, RsAgree.take_action_eq⟩
+  ⟨(by simp only [bridge_GameState_piece_board_for_step]; exact RsAgree.piece_board_for_step_eq),
+   (by simp only [bridge_GameState_take_action]; exact RsAgree.take_action_eq)⟩
 
-theorem C14_code_board_for_step (s : GameState) (i : Nat) (b : Board)
-    (h : GameState_piece_board_for_step s i = .ok b) : b = s.pieceBoardForStep i :=
-  (C14_value_of_ok (RsAgree.piece_board_for_step_eq s i) h).2
+theorem C14_code_board_for_step (s : GameState) (i : Nat) (r : Board)
+    (h : GameState_piece_board_for_step s i = .ok r) : r = s.pieceBoardForStep i := by
+  simp only [bridge_GameState_piece_board_for_step] at h
+  exact (C14_value_of_ok (RsAgree.piece_board_for_step_eq s i) h).2
 
 end Arimaa
